@@ -3,6 +3,7 @@ package main
 import (
 	"encoding/hex"
 	"fmt"
+	"math/big"
 	"os"
 	"os/exec"
 	"path/filepath"
@@ -701,7 +702,10 @@ func c05(c *Ctx) {
 						pos, ty = q, strings.ToUpper(tn)
 					}
 				}
-				if pos < 0 || perType[ty] >= limit {
+				// the moves and the common arithmetic take every constant in every tier (a 64-bit move is where a
+				// 32-bit immediate is extended in the way that differs from the arithmetic forms)
+				always := map[string]bool{"MOVQ": true, "MOVL": true, "MOVW": true, "MOVB": true, "ADDQ": true, "CMPQ": true, "PUSHQ": true, "IMUL3Q": true, "TESTQ": true, "ANDL": true}
+				if pos < 0 || (perType[ty] >= limit && !always[name]) {
 					continue
 				}
 				var ops []operand.Op
@@ -727,6 +731,15 @@ func c05(c *Ctx) {
 					bi, berr, _ := x86.VerifBuild(opcIndexOf[ci.Opcode], ci.Suffixes, append([]operand.Op{}, ops...))
 					before := len(insts)
 					add(bi, berr)
+					// what was accepted holds the constant that was supplied (the comparisons below read the
+					// instruction; this one compares it with what the caller passed)
+					if berr == nil && bi != nil && pos < len(bi.Operands) {
+						if sv, ok1 := intConstValue(k); ok1 {
+							if hv, ok2 := intConstValue(bi.Operands[pos]); !ok2 || sv.Cmp(hv) != 0 {
+								c.Out.Plan.GoViolations = append(c.Out.Plan.GoViolations, GoViolation{Key: "constant-replaced:" + name, Desc: fmt.Sprintf("%s was given the constant %s (%T) and built `%s`, which holds %s", name, sv.String(), k, instrLine(bi), bi.Operands[pos].Asm()), Replay: map[string]any{"ctor": name, "constant": sv.String(), "type": fmt.Sprintf("%T", k)}})
+							}
+						}
+					}
 					if len(insts) > before {
 						// the form that matched may be a sibling: if the opcode also has an imm8 form of this shape, a
 						// constant that fits 8 bits is (also) an imm8
@@ -1116,4 +1129,27 @@ func printedInBlocks(o *Out, insts []*inst05) {
 		}
 	}
 	o.Plan.Stats["printed_in_blocks"] = len(sel)
+}
+
+// intConstValue: the mathematical value of an integer constant operand
+func intConstValue(op operand.Op) (*big.Int, bool) {
+	switch v := op.(type) {
+	case operand.U8:
+		return new(big.Int).SetUint64(uint64(v)), true
+	case operand.U16:
+		return new(big.Int).SetUint64(uint64(v)), true
+	case operand.U32:
+		return new(big.Int).SetUint64(uint64(v)), true
+	case operand.U64:
+		return new(big.Int).SetUint64(uint64(v)), true
+	case operand.I8:
+		return big.NewInt(int64(v)), true
+	case operand.I16:
+		return big.NewInt(int64(v)), true
+	case operand.I32:
+		return big.NewInt(int64(v)), true
+	case operand.I64:
+		return big.NewInt(int64(v)), true
+	}
+	return nil, false
 }
